@@ -681,6 +681,10 @@ func parseType(ctx context.Context, t *parser.Type, tree *parser.Thrift, cache c
 			if fopts.ParseFieldRandomRate > 0 && rand.Float64() > fopts.ParseFieldRandomRate {
 				continue
 			}
+			if field.ID < 0 {
+				// FieldID is a uint16 and the id-indexed field map cannot hold negative ids
+				return nil, fmt.Errorf("negative field id %d of %s.%s is not supported", field.ID, typeName, field.Name)
+			}
 			var isRequestBase, isResponseBase bool
 			if fopts.EnableThriftBase {
 				isRequestBase = field.Type.Name == "base.Base" && recursionDepth == 0
